@@ -78,7 +78,7 @@ def run(chk):
                 i = [k for k, v in enumerate(verdict) if v][0]
                 fails.append(("correspondence", "LSP.Sem vs converter", json.dumps({"case": cases[i], "code": verdict[i]})[:1500]))
         else:
-            real = CS.real_run(cases)["results"]
+            real = CS.real_results(cases)
     chk.extra["use_sites"] = len({m[:3] for m in meta})
     witness = None
     for m, c, r in zip(meta, cases, real):
